@@ -322,3 +322,97 @@ def write_noexcept_lean(rows):
     if not os.path.exists(path) or open(path).read() != text:
         with open(path, 'w') as f:
             f.write(text)
+
+
+# --------------------------------------------------------------------------------------------------------------
+# C20: class shape as the debugger sees it + the member paths used by the shipped visualisers
+# --------------------------------------------------------------------------------------------------------------
+def gdb_run(std='c++17', cxx='g++'):
+    d = os.path.join(vlib.CACHE, 'c20', vlib.sha(vlib.repo_fingerprint(), open(os.path.join(vlib.VERIF, 'harness', 'gdb_states.cpp')).read(), std, cxx)[:16])
+    os.makedirs(d, exist_ok=True)
+    exe = os.path.join(d, 'gdb_states')
+    if not os.path.exists(exe):
+        rc, out = vlib.run([cxx, '-std=' + std, '-O0', '-g', '-I' + os.path.join(vlib.REPO, 'source/include'), os.path.join(vlib.VERIF, 'harness', 'gdb_states.cpp'), '-o', exe], timeout=600)
+        if rc != 0:
+            return None, 'gdb_states.cpp does not compile: ' + out[-1500:]
+    rc, out = vlib.run(['gdb', '-batch', '-x', os.path.join(vlib.VERIF, 'tools', 'gdb_c20.py'), exe], timeout=300, env=dict(os.environ, VERIF_REPO=vlib.REPO))
+    expect, got, shapes = {}, {}, {}
+    for l in out.split('\n'):
+        if l.startswith('EXPECT '):
+            n, rest = l[7:].split(' ', 1)
+            expect[n] = rest
+        elif l.startswith('GDB '):
+            n, rest = l[4:].split(' ', 1)
+            got[n] = rest
+        elif l.startswith('SHAPE '):
+            n, rest = l[6:].split(' ', 1)
+            shapes[n] = json.loads(rest)
+    return dict(expect=expect, got=got, shapes=shapes, raw=out[-2000:]), None
+
+
+def printer_paths():
+    """member names / positions the shipped visualisers use, read from their sources"""
+    py = open(os.path.join(vlib.REPO, 'source/support/python/gch/gdb/prettyprinters/small_vector/prettyprinter.py')).read()
+    nat = open(os.path.join(vlib.REPO, 'source/support/visualstudio/small_vector.natvis')).read()
+    m = re.search(r"self\.base\s*=\s*val\['(\w+)'\]", py)
+    root = m.group(1) if m else None
+    m = re.search(r"self\.data_base\s*=\s*self\.base\.cast\(self\.base\.type\.fields\(\)\[(\d+)\]\.type\)", py)
+    idx = int(m.group(1)) if m else None
+    members = sorted(set(re.findall(r"self\.data_base\['(\w+)'\]", py)))
+    it_members = sorted(set(re.findall(r"self\.val\['(\w+)'\]", py)))
+    # natvis: dotted paths inside expressions
+    exprs = re.findall(r'>([^<>]*)<', nat) + re.findall(r'Condition="([^"]*)"', nat) + re.findall(r'\{([^{}]*)\}', nat)
+    paths = set()
+    for e in exprs:
+        e = e.replace('&amp;', ' ').replace('&', ' ')
+        for tok in re.findall(r'[A-Za-z_]\w*(?:\.[A-Za-z_]\w*)*', e):
+            if tok in ('size', 'inlined', 'allocated', 'simple', 'capacity', 'allocator', 'ptr'):
+                continue
+            paths.add(tok)
+    # static data members of class small_vector, from the header text (g++ omits unused static constexpr members from the debug info)
+    hpp = open(os.path.join(vlib.REPO, 'source/include/gch/small_vector.hpp')).read()
+    m2 = re.search(r'\n  class small_vector\s*\n\s*: private', hpp)
+    statics = []
+    if m2:
+        body = hpp[m2.start():]
+        statics = sorted(set(re.findall(r'static\s+constexpr\s+(?:[\w:<>]+\s+)+?(\w+)\s*=', body[:body.find('\n  };')])))
+    return dict(py_root=root, py_first_field_index=idx, py_members=members, py_iterator_members=it_members, natvis_paths=sorted(paths), statics=statics)
+
+
+def write_shape_lean(shapes, paths):
+    """flatten the class graphs into a table: class name -> fields (name, isBase, isStatic, class name of the field's type or "")"""
+    classes = {}
+
+    def walk(sh):
+        if sh is None:
+            return ''
+        name = sh['name']
+        if name not in classes:
+            classes[name] = None
+            classes[name] = [(f['name'], f['base'], f['static'], walk(f['type'])) for f in sh['fields']]
+        return name
+    roots = {n: walk(shapes[n]) for n in sorted(shapes)}
+    b = lambda x: 'true' if x else 'false'
+    q = lambda x: '"' + x.replace('"', "'") + '"'
+    out = ['-- GENERATED by tools/tables.py from the debug information of instantiations of the real header (as gdb sees them) and from the',
+           '-- sources of the shipped visualisers — do not edit', 'namespace SvModel.Gen\n',
+           '/-- a field: name, is it a base-class subobject, is it a static member, class of its type ("" when not a class) -/',
+           'structure Fld where', '  name : String', '  isBase : Bool', '  isStatic : Bool', '  cls : String', '  deriving DecidableEq, Repr\n',
+           'def classTable : List (String × List Fld) := [']
+    out.append(',\n'.join('  (%s, [%s])' % (q(n), ', '.join('⟨%s, %s, %s, %s⟩' % (q(f[0]), b(f[1]), b(f[2]), q(f[3])) for f in fs)) for n, fs in classes.items()))
+    out.append(']\n')
+    out.append('def containerRoots : List String := [' + ', '.join(q(roots[n]) for n in sorted(roots) if not n.startswith('it_')) + ']')
+    out.append('def iteratorRoots : List String := [' + ', '.join(q(roots[n]) for n in sorted(roots) if n.startswith('it_')) + ']')
+    out.append('def nonEboRoots : List String := [' + ', '.join(q(roots[n]) for n in sorted(roots) if n.startswith('a_')) + ']\n')
+    out.append('def pyRoot : String := %s' % q(paths['py_root'] or ''))
+    out.append('def pyFirstFieldIndex : Nat := %s' % (paths['py_first_field_index'] if paths['py_first_field_index'] is not None else 999))
+    out.append('def pyMembers : List String := [' + ', '.join(q(m) for m in paths['py_members']) + ']')
+    out.append('def pyIteratorMembers : List String := [' + ', '.join(q(m) for m in paths['py_iterator_members']) + ']')
+    out.append('def staticMembers : List String := [' + ', '.join(q(m) for m in paths.get('statics', [])) + ']')
+    out.append('def natvisPaths : List (List String) := [' + ', '.join('[' + ', '.join(q(x) for x in p.split('.')) + ']' for p in paths['natvis_paths']) + ']')
+    out.append('\nend SvModel.Gen\n')
+    path = os.path.join(vlib.LEAN, 'SvModel', 'Gen', 'ClassShape.lean')
+    text = '\n'.join(out)
+    if not os.path.exists(path) or open(path).read() != text:
+        with open(path, 'w') as f:
+            f.write(text)
